@@ -5,7 +5,7 @@ against the specification, against fugacities recomputed by the harness from the
 public bubble / dew point solvers, against an independent Raoult's-law Rachford-Rice flash (ideal package) and against
 the flash of the k-times scaled feed.
 """
-import math, warnings
+import math, random, warnings
 import numpy as np
 import thermosteam as tmo
 from thermosteam import equilibrium as eq
@@ -18,11 +18,16 @@ RULE = ('compositions of 1-5 volatile chemicals (family-restricted for the vapou
         'added by the coverage audit: H / S flashes of a single chemical (alone, with a solid, with a gas) incl. targets just outside the saturated values, P exactly at Psat / the bubble / the dew pressure, P/V and T/V on every kind of '
         'mixture (kept variable), scaling under PV, TV and PH, N2 and glucose together, the ideal-package Rachford-Rice comparison with N2 as non-partitioning gas, a feed that starts split over g / l, T/P -> P/V -> P/H chained on one stream, '
         'VLE method shgo under the phase-boundary and iso-fugacity clauses. '
+        'seeded round 5, one HISTORY per case on one stream (one VLE object; its own draw of chemicals from a whole family / from all chemicals with the ideal package, in a package that holds more chemicals than the stream): '
+        'first flash (TV, TP, TH, TS, PV, PH) - the contents change (one chemical swapped, dropped, added, a disjoint set, new proportions, k times the contents, nothing, or another stream of the package is flashed instead; '
+        'through imol assignment, touching only what changes, copy_flow, copy_like, mix_from, empty + set, a proxy; the stream starts as MultiStream or Stream; N2 present, appearing or vanishing) - second flash at the very '
+        'temperature of the first (80 %) inside the two-phase window of the new contents (85 %) with TP, TV, PV, PH, TH or x / y - optionally back to the first set and a third T-P flash; judged by the same clauses on the new contents. '
         'non-trivial = two-phase result; distinct = hash of the case')
 MIN_NONTRIVIAL = {'quick': 150, 'thorough': 4000}
 ASSUMPTIONS = ['scaling under P/S is not judged: the liquid entropy functions of the property package (HEOS_FIT heat-capacity integrals of the thermo dependency) jump by whole J/mol/K between adjacent temperatures, so equal entropies do not identify equal states',
                'fugacities are recomputed from thermo.Gamma / Phi / PCF and Chemical.Psat (the same model objects the flash uses)',
-               'scaling bound 1e-5 of the feed (two fixed points converged to K_tol=1e-6; observed 3.3e-7 once in 24 000 compositions, otherwise 1e-15)', 'independent re-flash bound 5e-3 in vapour fraction (two fixed points converged to K_tol=1e-6 from different guesses); entropy bound 5e-3 of (S_vap - S_liq): the final entropy correction moves a fraction of one phase linearly while the mixing entropy is not linear (observed up to 1.3e-3 on cross-family mixtures); T-specified H/S and TV bounds follow from P_tol = 1 Pa times the slope across the two-phase window']
+               'scaling bound 1e-5 of the feed (two fixed points converged to K_tol=1e-6; observed 3.3e-7 once in 24 000 compositions, otherwise 1e-15)', 'independent re-flash bound 5e-3 in vapour fraction (two fixed points converged to K_tol=1e-6 from different guesses); entropy bound 5e-3 of (S_vap - S_liq): the final entropy correction moves a fraction of one phase linearly while the mixing entropy is not linear (observed up to 1.3e-3 on cross-family mixtures); T-specified H/S and TV bounds follow from P_tol = 1 Pa times the slope across the two-phase window',
+               'histories: the pressure returned by T/V with the ideal package is compared with the pressure at which the Raoult Rachford-Rice vapour fraction equals the specification, bound 2 Pa (P_tol = 1 Pa) + 1e-5 of the window width (V_tol = 1e-6); a raise of the second flash is counted, not judged (the property speaks about calculations that return)']
 FAM = {'alcohol': ('Methanol', 'Ethanol', 'Propanol', 'Butanol'), 'hydrocarbon': ('Hexane', 'Heptane', 'Octane', 'Benzene', 'Toluene')}
 ANY = ('Water', 'Acetone') + FAM['alcohol'] + FAM['hydrocarbon']
 _th = {}
@@ -33,7 +38,11 @@ def required(tier):
     return ['spec-TP', 'spec-H', 'spec-S', 'vapour-fraction', 'independent-reflash', 'phase-boundary', 'iso-fugacity', 'raoult-rr', 'scaling', 'single-component', 'with-inerts', 'spec-xy', 'two-packages',
             # coverage audit
             'single:PH', 'single:PS', 'single:TH', 'single:TS', 'single:at-Psat', 'single+gas:H/S', 'V-spec:any-kind', 'boundary:P=P_bubble', 'boundary:P=P_dew', 'raoult-rr:with-gas', 'with-inerts:gas-and-solute',
-            'initial-distribution', 'chained', 'method:shgo/inside']
+            'initial-distribution', 'chained', 'method:shgo/inside',
+            # seeded round 5: histories on one stream
+            'history', 'history:family', 'history:ideal', 'history:same-T/changed-set/two-phase', 'history:inside-window', 'history:swap', 'history:drop', 'history:add', 'history:disjoint', 'history:new-proportions',
+            'history:rescaled', 'history:unchanged', 'history:other-stream', 'history:third', 'history:obj=Stream', 'history:method=proxy', 'history:method=mix_from', 'history:method=imol-touch',
+            'history:second=TP', 'history:second=TV', 'history:second=PV', 'history:second=PH', 'history:second=TH', 'history:second=xy']
 
 
 def chem(i):
@@ -82,6 +91,9 @@ def gen_case(rng):
     c['boundary'] = rng.random() < 0.35
     c['shgo'] = rng.random() < 0.3
     c['shgo_inside'] = rng.random() < 0.75      # move the pressure of the shgo clause into the two-phase window when the random (T, P) is outside it
+    # seeded round 5: a history on ONE stream (one VLE object): flash, the contents change, flash again.  The sub-case is drawn from a generator of its own
+    # (seeded by the hash of the case so far) so that the cases above stay what they were
+    c['hist'] = gen_hist(random.Random(int(case_hash(c), 16)))
     return c
 
 
@@ -335,6 +347,12 @@ def run_case(case, rec):
             if extra_clauses(case, rec, th, ids, vidx, flash): two_phase = True
         except Exception as e:
             rec.exception('harness', e, what=f'harness error in the additional clauses: {type(e).__name__}: {e}')
+        if case.get('hist'):
+            try:
+                if history_clauses(case['hist'], rec): two_phase = True
+            except Exception as e:
+                rec.exception('harness', e, what=f'harness error in the history clauses: {type(e).__name__}: {e}')
+            tmo.settings.set_thermo(th)
     if two_phase: rec.mark_nontrivial(case_hash(case))
 
 
@@ -544,6 +562,378 @@ def extra_clauses(case, rec, th, ids, vidx, flash):
                             rec.check(s.P == P0, 'spec-TP', 'PH/chained', f'vle(P={P0}, H=...) after T/P and P/V flashes on the same stream left P={s.P!r}')
                             rec.check(abs(s.H - target) <= 1e-5 * C, 'spec-H', 'PH/chained', f'vle(P={P0}, H={target!r}) after T/P and P/V flashes on the same stream: stream H = {s.H!r} (residual {abs(s.H - target) / C:.3g} K*C)', residual=abs(s.H - target) / C)
                 two = True
+    return two
+
+
+# ---------------------------------------------------------------------------
+# seeded round 5: a HISTORY on one stream (hence one VLE object, which remembers K values, the vapour fraction, T, P, the set of chemicals it was set up
+# for and the bubble / dew point objects of that set): flash - the contents of the stream change - flash again.  The second (and third) result is judged by
+# the clauses of the property alone: specified T / P written, phase boundaries, iso-fugacity and the independent re-flash (families), the Raoult Rachford-Rice
+# split and pressure (ideal package), enthalpy reproduced, and scaling when the new contents are k times the old ones.
+
+HIST_MODES = ('swap', 'swap', 'drop', 'add', 'new-proportions', 'scaled', 'unchanged', 'disjoint', 'other-stream')
+HIST_METHODS = ('imol-set', 'imol-touch', 'copy_flow', 'copy_like', 'mix_from', 'empty-set', 'proxy')
+HIST_POOL_IDEAL = ANY + ('N2',)
+
+
+def _fractions(r, n):
+    while True:
+        x = [r.uniform(0.05, 1) for _ in range(n)]; s = sum(x); x = [v / s for v in x]
+        if min(x) >= 0.02: return x
+
+
+def gen_hist(r):
+    hk = r.choice(['family', 'family', 'family', 'ideal', 'ideal'])
+    fam = r.choice(sorted(FAM)) if hk == 'family' else None
+    pool = list(FAM[fam]) if fam else list(ANY)
+    mode = r.choice(HIST_MODES)
+    spec2 = r.choice(['TP', 'TP', 'TP', 'TV', 'TV', 'TH'] if hk == 'ideal' else ['TP', 'TP', 'TP', 'TV', 'TV', 'PV', 'PH', 'TH', 'xy'])
+    nA = r.randrange(2, min(4, len(pool)) + 1)
+    if spec2 == 'xy':      # x / y specifications are for binary equilibrium sets
+        nA = 2
+        if mode in ('drop', 'add', 'scaled'): mode = 'swap'
+    if mode == 'drop': nA = max(nA, 3)
+    if mode in ('swap', 'add', 'other-stream'): nA = min(nA, len(pool) - 1)
+    if mode == 'disjoint': nA = min(nA, len(pool) - 2)
+    idsA = r.sample(pool, nA)
+    rest = [i for i in pool if i not in idsA]
+    if mode in ('swap', 'other-stream'): idsB = list(idsA); idsB[r.randrange(nA)] = r.choice(rest)
+    elif mode == 'drop': idsB = list(idsA); del idsB[r.randrange(nA)]
+    elif mode == 'add': idsB = idsA + [r.choice(rest)]
+    elif mode == 'disjoint': idsB = r.sample(rest, 2 if spec2 == 'xy' else r.randrange(2, min(4, len(rest)) + 1))
+    else: idsB = list(idsA)
+    xA = _fractions(r, nA)
+    xB = list(xA) if mode in ('scaled', 'unchanged') else _fractions(r, len(idsB))
+    FA = round(10 ** r.uniform(-2, 3), 5)
+    k = round(10 ** r.uniform(-2, 2), 5)
+    h = {'kind': hk, 'fam': fam, 'mode': mode, 'idsA': idsA, 'xA': xA, 'idsB': idsB, 'xB': xB, 'FA': FA,
+         'FB': FA if mode == 'unchanged' else (FA * k if mode == 'scaled' else FA * round(r.uniform(0.5, 2.0), 4)), 'k': k,
+         'T': round(r.uniform(280, 450), 2), 'P': round(10 ** r.uniform(math.log10(2e4), 6), 1), 'V1': round(r.uniform(0.05, 0.95), 4), 'V2': round(r.uniform(0.03, 0.97), 4),
+         'Ts': round(r.uniform(280, 450), 2), 'Psf': r.choice([1.0, 0.5, 2.0]),
+         'spec1': r.choice(['TV', 'TV', 'TP-inside', 'TP-inside', 'TP', 'TH', 'TS', 'PV', 'PH']),
+         'spec2': spec2, 'xy': r.choice(['Tx', 'Ty', 'Px', 'Py']),
+         'sameT': r.random() < 0.8, 'dT': r.choice([-1, 1]) * round(r.uniform(2, 30), 2), 'inside': r.random() < 0.85,
+         'method': r.choice(HIST_METHODS), 'obj': r.choice(['MultiStream', 'MultiStream', 'Stream']),
+         'third': r.random() < 0.35, 'xA3': _fractions(r, nA),
+         'n2': (r.choice([None, None, None, 'both', 'B-only', 'A-only']) if hk == 'ideal' else None), 'n2_frac': round(r.uniform(0.001, 0.02), 5)}
+    if mode == 'scaled': h['spec1'] = h['spec2'] = 'TP'; h['sameT'] = True; h['n2'] = h['n2'] and 'both'
+    return h
+
+
+def hist_stream(th, amounts, T, P, obj='MultiStream'):
+    """a stream holding `amounts` (ID -> kmol/hr), volatile chemicals as liquid and N2 as gas"""
+    if obj == 'Stream':
+        return tmo.Stream(None, T=T, P=P, thermo=th, phase='l', **amounts)      # becomes a MultiStream at its first vle call
+    s = tmo.MultiStream(None, phases=('g', 'l'), T=T, P=P, thermo=th)
+    for i, v in amounts.items(): s.imol['g' if i == 'N2' else 'l', i] = v
+    return s
+
+
+def change_contents(s, th, amounts, method, T, P):
+    """make the stream hold `amounts`, the way a user would; returns the object to go on with (the proxy shares all data and the equilibrium objects)"""
+    IDs = th.chemicals.IDs
+    if method == 'proxy': s = s.proxy(); method = 'imol-set'
+    if method in ('imol-set', 'empty-set'):
+        if method == 'empty-set': s.empty()
+        for i in IDs:
+            v = amounts.get(i, 0.)
+            s.imol['g', i] = v if i == 'N2' else 0.; s.imol['l', i] = 0. if i == 'N2' else v
+    elif method == 'imol-touch':
+        # only the chemicals whose amount changes are touched, what is there keeps its distribution over the phases
+        for i in IDs:
+            v = amounts.get(i, 0.); g = float(s.imol['g', i]); l = float(s.imol['l', i])
+            if v == 0.:
+                if g or l: s.imol['g', i] = 0.; s.imol['l', i] = 0.
+            elif g + l > 0.:
+                if g: s.imol['g', i] = g * (v / (g + l))
+                if l: s.imol['l', i] = l * (v / (g + l))
+            else: s.imol['g' if i == 'N2' else 'l', i] = v
+    elif method == 'copy_flow': s.copy_flow(hist_stream(th, amounts, T, P))
+    elif method == 'copy_like': s.copy_like(hist_stream(th, amounts, T, P))
+    elif method == 'mix_from':
+        ks = list(amounts); a = {i: (amounts[i] if n == 0 else 0.5 * amounts[i]) for n, i in enumerate(ks)}; b = {i: amounts[i] - a[i] for i in ks if amounts[i] - a[i] > 0}
+        s.mix_from([hist_stream(th, a, T, P), hist_stream(th, b, T, P)] if b else [hist_stream(th, a, T, P)])
+    else: raise ValueError(method)
+    return s
+
+
+def totals_of(s):
+    a = np.asarray(s.imol.data.to_array())      # (a Stream that was not flashed yet has one row)
+    return a.sum(0) if a.ndim == 2 else a
+
+
+def _bisect(f, lo, hi, n=100):
+    flo, fhi = f(lo), f(hi)
+    if not (flo < 0 < fhi or fhi < 0 < flo): return None
+    for _ in range(n):
+        mid = 0.5 * (lo + hi)
+        if (f(mid) < 0) == (flo < 0): lo = mid
+        else: hi = mid
+    return 0.5 * (lo + hi)
+
+
+def history_clauses(h, rec):
+    """returns True when a two-phase result of a flash after a change of contents was judged"""
+    ideal = h['kind'] == 'ideal'; mode = h['mode']; method = h['method']
+    th = thermo(HIST_POOL_IDEAL if ideal else FAM[h['fam']], ideal=ideal)
+    tmo.settings.set_thermo(th)
+    chems = th.chemicals
+    idsA, idsB, xA, xB, FA, FB = h['idsA'], h['idsB'], h['xA'], h['xB'], h['FA'], h['FB']
+    n2A = h['n2'] in ('both', 'A-only'); n2B = h['n2'] in ('both', 'B-only')
+    amtA = {i: x * FA for i, x in zip(idsA, xA)}; amtB = {i: x * FB for i, x in zip(idsB, xB)}
+    if n2A: amtA['N2'] = h['n2_frac'] * FA
+    if n2B: amtB['N2'] = h['n2_frac'] * FB
+    V1, V2 = h['V1'], h['V2']
+    hist = f"{h['obj']} holding {idsA} flashed with {h['spec1']}, contents changed ({mode}, through {method}) to {idsB}"
+    if mode == 'other-stream': hist = f"{h['obj']} holding {idsA} flashed with {h['spec1']}, then another {h['obj']} of the same package holding {idsB}"
+    two = False
+
+    def flash(s, step, **spec):
+        nm = ''.join(sorted(spec))
+        try:
+            s.vle(**spec); return True
+        except Exception as e:
+            if type(e).__name__ in REFUSE: rec.refuse(f'history/{step}/{nm}: {type(e).__name__}'); return False
+            # as everywhere in C04: the property speaks about calculations that return; programming errors in the call path are still reported
+            if not isinstance(e, (TypeError, AttributeError, KeyError, IndexError, NameError, UnboundLocalError)):
+                rec.refuse(f'history/{step}/{nm}: raised {type(e).__name__}'); return False
+            rec.exception('flash', e, what=f'{step} flash of a history ({hist}): vle({spec}) raised {type(e).__name__}: {str(e)[:140]}'); return False
+
+    def Psats(ids_, T): return np.array([chems[i].Psat(T) for i in ids_])
+
+    def window_P(ids_, x_, T):
+        """(P_bubble, P_dew) of the volatile mixture at T: Raoult's law for the ideal package, the public bubble / dew point solvers otherwise"""
+        z = np.array(x_)
+        if ideal:
+            Ps = Psats(ids_, T); return float((z * Ps).sum()), float(1. / (z / Ps).sum())
+        cs = tuple(chems[i] for i in ids_)
+        try: return float(eq.BubblePoint(cs, th).solve_Py(z.copy(), T)[0]), float(eq.DewPoint(cs, th).solve_Px(z.copy(), T)[0])
+        except Exception as e:
+            rec.refuse(f'history: bubble/dew point unavailable: {type(e).__name__}'); return None
+
+    def window_T(ids_, x_, P):
+        z = np.array(x_)
+        if ideal:
+            Tb = _bisect(lambda T: (z * Psats(ids_, T)).sum() - P, 250., 480., 60); Td = _bisect(lambda T: 1. / (z / Psats(ids_, T)).sum() - P, 250., 480., 60)
+            return None if Tb is None or Td is None else (Tb, Td)
+        cs = tuple(chems[i] for i in ids_)
+        try: return float(eq.BubblePoint(cs, th).solve_Ty(z.copy(), P)[0]), float(eq.DewPoint(cs, th).solve_Tx(z.copy(), P)[0])
+        except Exception as e:
+            rec.refuse(f'history: bubble/dew point unavailable: {type(e).__name__}'); return None
+
+    def P_inside(ids_, x_, T, V):
+        w = window_P(ids_, x_, T)
+        if w is None or not (w[1] < w[0]): return None
+        P = round(w[0] - V * (w[0] - w[1]), 1)
+        return P if 2e4 <= P <= 1e6 else None
+
+    def pick_TP(ids_, x_, T, P, V):
+        """a (T, P) of the box at which the mixture is (nominally) two-phase: the drawn T with a pressure inside the window, else the drawn P with a temperature inside"""
+        if not h['inside']: return T, P
+        Pi = P_inside(ids_, x_, T, V)
+        if Pi is not None: return T, Pi
+        w = window_T(ids_, x_, P)
+        if w is not None and w[0] < w[1]:
+            Ti = round(w[0] + V * (w[1] - w[0]), 2)
+            if 280. <= Ti <= 450.: return Ti, P
+        return None
+
+    def judge_TP(s, ids_, x_, amt, T, P, sfx, with_n2, what):
+        """the clauses for specified T and P on a stream that now holds ids_ (fractions x_ of the volatile part)"""
+        vidx = [chems.index(i) for i in ids_]; z = np.array(x_); F = float(sum(amt[i] for i in ids_))
+        rec.check(s.T == T and s.P == P, 'spec-TP', 'TP/history', f'{what}: vle(T={T}, P={P}) left T={s.T!r}, P={s.P!r}')
+        V = vfrac(s, vidx)
+        g = s.imol['g'].to_array()[vidx]; l = s.imol['l'].to_array()[vidx]
+        if ideal:
+            K = Psats(ids_, T) / P
+            if with_n2:
+                nl = amt['N2']; Ft = F + nl; zz = z * F / Ft
+                Vm = raoult_rr_light(zz, K, nl / Ft)
+                if Vm >= 1.0: exp_g, exp_l = z * F, np.zeros_like(z)
+                else:
+                    xl = zz / (1 + Vm * (K - 1)); exp_l = (1 - Vm) * Ft * xl; exp_g = z * F - exp_l
+            else:
+                Vm = raoult_rr(z, K)
+                xl = z / (1 + Vm * (K - 1)); yv = K * xl
+                exp_g = Vm * F * yv; exp_l = (1 - Vm) * F * xl
+                if Vm in (0.0, 1.0): exp_g, exp_l = (z * F * Vm, z * F * (1 - Vm))
+            dev = float(max(np.abs(g - exp_g).max(), np.abs(l - exp_l).max()) / F)
+            rec.check(dev <= 1e-6, 'raoult-rr', 'TP/history/' + sfx, f'{what}: the ideal-package flash at T={T}, P={P} differs from the Raoult Rachford-Rice split of the present contents by {dev:.3g} of the feed (V model {Vm!r}, V flash {V!r}; z={z.tolist()})', residual=dev)
+            return 0 < Vm < 1
+        w = window_P(ids_, x_, T)
+        if w is not None:
+            Pb, Pd = w
+            if P >= Pb * (1 + 1e-6): rec.check(V == 0.0, 'phase-boundary', 'above-bubble/history/' + sfx, f'{what}: P={P} >= P_bubble={Pb!r} at T={T} but vapour fraction is {V!r} (z={z.tolist()})')
+            elif P <= Pd * (1 - 1e-6): rec.check(V == 1.0, 'phase-boundary', 'below-dew/history/' + sfx, f'{what}: P={P} <= P_dew={Pd!r} at T={T} but vapour fraction is {V!r} (z={z.tolist()})')
+            elif Pd * (1 + 1e-4) < P < Pb * (1 - 1e-4):
+                rec.hit('history:inside-window')
+                rec.check(0.0 < V < 1.0, 'phase-boundary', 'inside/history/' + sfx, f'{what}: P_dew={Pd!r} < P={P} < P_bubble={Pb!r} at T={T} but vapour fraction is {V!r} (z={z.tolist()})')
+        if 0.0 < V < 1.0:
+            y = g / g.sum(); x = l / l.sum(); cs = tuple(chems[i] for i in ids_)
+            Psat = Psats(ids_, T)
+            fl = x * th.Gamma(cs)(x.copy(), T) * Psat * th.PCF(cs)(T, P, Psat); fg = y * th.Phi(cs)(y.copy(), T, P) * P
+            dev = float((np.abs(fl - fg) / fg).max())
+            rec.check(dev <= 1e-4, 'iso-fugacity', 'TP/history/' + sfx, f'{what}: liquid and vapour fugacities differ by {dev:.3g} (relative) after vle(T={T}, P={P}): f_l={fl.tolist()}, f_g={fg.tolist()}', residual=dev)
+        fr = hist_stream(th, amt, h['Ts'], P * h['Psf'])
+        if flash(fr, 'fresh', T=T, P=P):
+            Vf = vfrac(fr, vidx)
+            rec.check(abs(Vf - V) <= 5e-3, 'independent-reflash', 'TP/history/' + sfx, f'{what}: vle(T={T}, P={P}) gives vapour fraction {V!r} but {Vf!r} on a fresh stream with the same contents', residual=abs(Vf - V))
+        return 0.0 < V < 1.0
+
+    # ---- where the second flash takes place: a point of the T/P box at which the SECOND mixture is two-phase (85 %), else the drawn (T, P)
+    tp = pick_TP(idsB, xB, h['T'], h['P'], V2)
+    if tp is None: rec.refuse('history: no two-phase point of the second mixture found inside the T/P box'); return False
+    T2, P2 = tp
+    spec1 = h['spec1']
+    T1 = T2 if h['sameT'] else min(450., max(280., round(T2 + h['dT'], 2)))
+    # ---- first flash, on the first contents
+    s = hist_stream(th, amtA, h['Ts'], P2 * h['Psf'], h['obj'])
+    if spec1 == 'TV': ok = flash(s, 'first', T=T1, V=V1)
+    elif spec1 == 'TP': ok = flash(s, 'first', T=T1, P=P2)
+    elif spec1 == 'TP-inside':
+        P1 = P_inside(idsA, xA, T1, V1)
+        ok = flash(s, 'first', T=T1, P=P2 if P1 is None else P1)
+    elif spec1 in ('TH', 'TS'):
+        pr = hist_stream(th, amtA, h['Ts'], P2)
+        ok = flash(pr, 'probe', T=T1, V=V1) and flash(s, 'first', T=T1, **{spec1[1]: getattr(pr, spec1[1])})
+    elif spec1 == 'PV': ok = flash(s, 'first', P=P2, V=V1)
+    else:
+        pr = hist_stream(th, amtA, h['Ts'], P2)
+        ok = flash(pr, 'probe', P=P2, V=V1) and flash(s, 'first', P=P2, H=pr.H)
+    if not ok: return False
+    if spec1 in ('PV', 'PH'):
+        # the second flash is specified at the very temperature the first one returned
+        T2 = float(s.T) if h['sameT'] else round(float(s.T) + h['dT'], 2)
+        if not (280. <= T2 <= 450.): rec.refuse('history: the temperature returned by the first flash is outside the T box'); return False
+        if h['inside']:
+            P2 = P_inside(idsB, xB, T2, V2)
+            if P2 is None: rec.refuse('history: no two-phase point of the second mixture found inside the T/P box'); return False
+    rows1 = rows_of(s).copy(); P1_used = float(s.P)
+    # ---- the contents change
+    first = s
+    if mode == 'other-stream': s = hist_stream(th, amtB, h['Ts'], P2 * h['Psf'], h['obj'])      # not a change of contents: ANOTHER stream of the same package is flashed next
+    else: s = change_contents(s, th, amtB, method, h['Ts'], P2)
+    tot = totals_of(s); want = np.array([amtB.get(i, 0.) for i in chems.IDs])
+    if not np.allclose(tot, want, rtol=1e-12, atol=0.0): rec.refuse(f'history: {method} did not leave the intended contents (not a flash)'); return False
+    same_set = mode == 'other-stream' or set(idsA) | ({'N2'} if n2A else set()) == set(idsB) | ({'N2'} if n2B else set())      # (another stream has equilibrium objects of its own)
+    what = f'history ({hist}), second flash'
+    rec.hit('history'); rec.hit('history:' + mode); rec.hit('history:method=' + method); rec.hit('history:first=' + spec1); rec.hit('history:' + h['kind'])
+    if h['obj'] == 'Stream': rec.hit('history:obj=Stream')
+    # ---- second flash, on the new contents
+    spec2 = h['spec2']; vidx = [chems.index(i) for i in idsB]
+    if spec2 == 'xy' and (len(idsB) != 2 or n2B): spec2 = 'TP'      # x / y specifications: binary equilibrium sets
+    if spec2 == 'TP':
+        if not flash(s, 'second', T=T2, P=P2): return False
+        rec.hit('history:second=TP')
+        two = judge_TP(s, idsB, xB, amtB, T2, P2, mode, n2B, what)
+        if two and h['sameT'] and not same_set: rec.hit('history:same-T/changed-set/two-phase')
+        if mode == 'scaled' and spec1 == 'TP' and P1_used == P2:
+            k = h['k']; rows2 = rows_of(s); F = rows1.sum()
+            okk = np.allclose(rows2, k * rows1, rtol=0, atol=1e-5 * F * k); key = 'TP/history/rescaled-contents'
+            if not okk and not ideal and 0 < vfrac(s, vidx) < 1:
+                try:
+                    g = rows2[0][vidx]; l = rows2[1][vidx]; y = g / g.sum(); x = l / l.sum(); cs = tuple(chems[i] for i in idsB); Psat = Psats(idsB, T2)
+                    fl = x * th.Gamma(cs)(x.copy(), T2) * Psat * th.PCF(cs)(T2, P2, Psat); fg = y * th.Phi(cs)(y.copy(), T2, P2) * P2
+                    if float((np.abs(fl - fg) / fg).max()) > 1e-2: key = 'TP/unconverged-fixed-point'      # the recorded mechanism (an unconverged iterate depends on rounding)
+                except Exception: pass
+            rec.hit('history:rescaled')
+            rec.check(okk, 'scaling', key, f'{what}: the contents were multiplied by {k} and flashed again at T={T2}, P={P2}: the flows are not {k} times those of the first flash (max deviation {np.abs(rows2 - k * rows1).max() / (F * k):.3g} of the feed)', residual=float(np.abs(rows2 - k * rows1).max() / (F * k)))
+    elif spec2 in ('TV', 'PV'):
+        spec = {'T': T2, 'V': V2} if spec2 == 'TV' else {'P': P2, 'V': V2}; fixed = spec2[0]
+        if not flash(s, 'second', **spec): return False
+        rec.hit('history:second=' + spec2)
+        rec.check(getattr(s, fixed) == spec[fixed], 'spec-TP', spec2 + '/history', f'{what}: vle({spec}) left {fixed}={getattr(s, fixed)!r}')
+        Vg = vfrac(s, vidx)
+        if ideal:
+            if n2B: rec.refuse('history: T/V on the ideal package with a non-condensable gas: pressure not judged (no closed model kept for it)')
+            else:
+                z = np.array(xB); Ps = Psats(idsB, T2); Pb = float((z * Ps).sum()); Pd = float(1. / (z / Ps).sum())
+                Pm = _bisect(lambda P: float((z * (Ps - P) / (P + V2 * (Ps - P))).sum()), Pd * (1 - 1e-9), Pb * (1 + 1e-9))
+                if Pm is not None:
+                    # resolution: P_tol = 1 Pa, or V_tol = 1e-6 translated to pressure with the width of the two-phase window
+                    bound = 2.0 + 1e-5 * (Pb - Pd)
+                    rec.check(abs(s.P - Pm) <= bound, 'raoult-rr', 'TV-pressure/history/' + mode, f'{what}: vle(T={T2}, V={V2}) with the ideal package returned P={s.P!r}, but the Raoult Rachford-Rice vapour fraction of the present contents equals {V2} at P={Pm!r} (z={z.tolist()})', residual=abs(s.P - Pm) / (Pb - Pd))
+                    rec.check(abs(Vg - V2) <= max(1e-5, 10 * 0.96 / max(Pb - Pd, 1e-9)), 'vapour-fraction', 'TV/history/' + mode, f'{what}: vle(T={T2}, V={V2}): vapour fraction {Vg!r}', residual=abs(Vg - V2))
+                    two = True
+        else:
+            vb = 1e-5
+            if spec2 == 'TV':
+                pr = hist_stream(th, amtB, h['Ts'], P2)
+                if flash(pr, 'probe', T=T2, V=0.02):
+                    pa = pr.P
+                    if flash(pr, 'probe', T=T2, V=0.98): vb = max(1e-5, 10 * 0.96 / max(abs(pa - pr.P), 1e-9) * 1.0)
+            rec.check(abs(Vg - V2) <= vb, 'vapour-fraction', spec2 + '/history/' + mode, f'{what}: vle({spec}): vapour fraction {Vg!r}', residual=abs(Vg - V2))
+            fr = hist_stream(th, amtB, h['Ts'], P2 * h['Psf'])
+            if 280. <= s.T <= 450. and 2e4 <= s.P <= 1e6 and flash(fr, 'fresh', T=s.T, P=s.P):
+                V3 = vfrac(fr, vidx); key = spec2 + '/history/' + mode
+                if abs(V3 - V2) > 5e-3 + vb:
+                    try:
+                        z_ = np.array(xB); cs_ = tuple(chems[i] for i in idsB)
+                        if eq.DewPoint(cs_, th).solve_Tx(z_, s.P)[0] < eq.BubblePoint(cs_, th).solve_Ty(z_, s.P)[0] - 1e-6: key = spec2 + '/dew-below-bubble'      # the recorded dew-solver finding reaching the flash
+                    except Exception: pass
+                rec.check(abs(V3 - V2) <= 5e-3 + vb, 'independent-reflash', key, f'{what}: vle({spec}) returned T={s.T!r}, P={s.P!r}; a T-P flash of a fresh stream with the same contents there gives vapour fraction {V3!r}, not {V2} (z={xB})', residual=abs(V3 - V2))
+            two = True
+        if two and fixed == 'T' and h['sameT'] and not same_set: rec.hit('history:same-T/changed-set/two-phase')
+    elif spec2 == 'xy':
+        # the specified composition: that of the named phase of a fresh stream with the same contents at (T2, P2) (rounded), so that the lever rule is feasible
+        nm = h['xy']; fixed = {'T': T2} if nm[0] == 'T' else {'P': P2}
+        vo = sorted(vidx)      # x / y are given in the order of the chemicals of the package
+        pr = hist_stream(th, amtB, h['Ts'], P2)
+        if not flash(pr, 'probe', T=T2, P=P2): return False
+        row = pr.imol['l' if nm[1] == 'x' else 'g'].to_array()[vo]
+        if not (0 < vfrac(pr, vidx) < 1): rec.refuse('history: x / y specification not exercised (the second mixture is one phase at the chosen point)'); return False
+        v = min(max(round(float(row[0] / row.sum()), 4), 0.001), 0.999)
+        if not flash(s, 'second', **fixed, **{nm[1]: [v, 1 - v]}): return False
+        rec.hit('history:second=xy')
+        rec.check(getattr(s, nm[0]) == fixed[nm[0]], 'spec-TP', nm + '/history', f'{what}: vle({fixed}, {nm[1]}=[{v}, {1 - v}]) left {nm[0]}={getattr(s, nm[0])!r}')
+        row = s.imol['l' if nm[1] == 'x' else 'g'].to_array()[vo]
+        if row.sum() > 1e-9 * FB:
+            got = row[0] / row.sum()
+            rec.check(abs(got - v) <= 1e-4, 'spec-xy', nm + '/history/' + mode, f'{what}: vle({fixed}, {nm[1]}=[{v}, ...]): the {"liquid" if nm[1] == "x" else "vapour"} holds a fraction {got!r} of {chems.IDs[vo[0]]}', residual=abs(got - v))
+        two = 0 < vfrac(s, vidx) < 1
+    elif spec2 == 'TH':
+        # the enthalpy of the two-phase state of the new contents at (T2, V2); reproduced to |dH/dP| * P_tol (the T-specified search solves for the pressure to P_tol = 1 Pa)
+        pr = hist_stream(th, amtB, h['Ts'], P2)
+        if not flash(pr, 'probe', T=T2, V=0.02): return False
+        Hlo, Plo = pr.H, pr.P
+        if not flash(pr, 'probe', T=T2, V=0.98): return False
+        Hhi, Phi_ = pr.H, pr.P
+        if not flash(pr, 'probe', T=T2, V=V2): return False
+        target = pr.H
+        if Hhi == Hlo: rec.refuse('history: degenerate two-phase window (probe flashes returned the same state)'); return False
+        slopeH = abs(Hhi - Hlo) / max(abs(Plo - Phi_), 1e-9)
+        if not flash(s, 'second', T=T2, H=target): return False
+        rec.hit('history:second=TH')
+        rec.check(s.T == T2, 'spec-TP', 'TH/history', f'{what}: vle(T={T2}, H=...) left T={s.T!r}')
+        C = s.C; got = s.H; key = 'TH/history/' + mode
+        if abs(got - target) > max(1e-5 * C, 10 * slopeH):
+            # the recorded mechanisms of the T-specified searches (same classification as for streams without a history)
+            chk = hist_stream(th, amtB, h['Ts'], P2)
+            if flash(chk, 'fresh', T=T2, P=s.P): key = 'TH/unconverged-pressure' if abs(chk.H - target) > 10 * slopeH + 1e-5 * chk.C else 'TH/stream-not-at-returned-pressure'
+        rec.check(abs(got - target) <= max(1e-5 * C, 10 * slopeH), 'spec-H', key, f'{what}: vle(T={T2}, H={target!r}): stream H = {got!r} (residual {abs(got - target) / C:.3g} K*C)', residual=abs(got - target) / C)
+        two = 0 < vfrac(s, vidx) < 1
+    else:      # PH: the enthalpy of the two-phase state of the new contents at (P2, V2)
+        pr = hist_stream(th, amtB, h['Ts'], P2)
+        if not flash(pr, 'probe', P=P2, V=V2): return False
+        target = pr.H
+        if not flash(s, 'second', P=P2, H=target): return False
+        rec.hit('history:second=PH')
+        C = s.C
+        rec.check(s.P == P2, 'spec-TP', 'PH/history', f'{what}: vle(P={P2}, H=...) left P={s.P!r}')
+        rec.check(abs(s.H - target) <= 1e-5 * C, 'spec-H', 'PH/history/' + mode, f'{what}: vle(P={P2}, H={target!r}): stream H = {s.H!r} (residual {abs(s.H - target) / C:.3g} K*C)', residual=abs(s.H - target) / C)
+        rec.check(abs(s.T - pr.T) <= 1e-3, 'independent-reflash', 'PH/history/' + mode, f'{what}: vle(P={P2}, H = the enthalpy of a fresh stream with the same contents at vapour fraction {V2}) returned T={s.T!r}; the fresh stream is at T={pr.T!r}', residual=abs(s.T - pr.T))
+        two = 0 < vfrac(s, vidx) < 1
+    # ---- third flash: back to the first set of chemicals (new proportions), at the temperature of the second flash
+    if h['third'] and spec2 in ('TP', 'TV'):
+        amt3 = {i: x * FA for i, x in zip(idsA, h['xA3'])}
+        if n2A: amt3['N2'] = h['n2_frac'] * FA
+        P3 = P_inside(idsA, h['xA3'], T2, V1)
+        if P3 is None: rec.refuse('history: no two-phase point of the third mixture found inside the T/P box')
+        else:
+            s = change_contents(first if mode == 'other-stream' else s, th, amt3, method, h['Ts'], P3)
+            if np.allclose(totals_of(s), np.array([amt3.get(i, 0.) for i in chems.IDs]), rtol=1e-12, atol=0.0) and flash(s, 'third', T=T2, P=P3):
+                rec.hit('history:third')
+                if judge_TP(s, idsA, h['xA3'], amt3, T2, P3, 'back-to-first-set', n2A, f'history ({hist}, and back to {idsA} through {method}), third flash'): two = True
     return two
 
 
